@@ -67,7 +67,11 @@ impl Stream for ScriptStream {
                 self.pos += n;
                 Poll::Ready(Some(Ok(v.into())))
             }
-            Ev::E => Poll::Ready(Some(Err("scripted entity error".into()))),
+            Ev::E => {
+                // the entity's stream stays finished once it has failed (proviso of C20)
+                self.i = self.evs.len();
+                Poll::Ready(Some(Err("scripted entity error".into())))
+            }
             Ev::N => {
                 self.i = self.evs.len();
                 Poll::Ready(None)
